@@ -320,6 +320,17 @@ func (g *anyGen) leaf(rt *rapid.T) *tw.Expr {
 	if g.hot != "" && rapid.IntRange(0, 2).Draw(rt, "loopVar") == 0 {
 		return tw.Var(g.hot)
 	}
+	if rapid.IntRange(0, 24).Draw(rt, "rawSpelling") == 0 {
+		// spellings the printer never produces: pairs without a value whose key is not a name, repeated and quoted keys,
+		// trailing and doubled separators, empty literals, blanks and line breaks at odd places
+		return tw.Raw(rapid.SampledFrom([]string{`{"name"}`, `{'a', b}`, `{1}`, `{nil}`, `{true}`, `{name}`, `{name, }`, `{x, name: 1}`, `{"a": 1, }`, `[1, ]`, `[, 1]`, `[1,, 2]`, `{a: 1, a: 2}`, `{1: 2}`,
+			`{"a b": 1}`, `{a: }`, `{: 1}`, `{,}`, `{a b}`, `{a: 1 b: 2}`, `{"a" 1}`, `{a.b}`, `{a: {b}}`, `{[1]}`, `{-1}`, `{1.5}`, `{"x".len()}`, `{x: x, x}`, `[ ]`, `{ }`, `( )`, `(1, 2)`, `{a:
+1}`, `[1
+,
+2]`,
+			`x . len ( )`, `1 . str()`, `1.str()`, `1..str()`, `"a" "b"`, `'a''b'`, `1 2`, `x y`, `true false`, `nil nil`, `x ?`, `x ? 1`, `x ? 1 :`, `? 1 : 2`, `x[`, `x[]`, `x[1`, `x.`, `.x`, `x..y`, `x.1`, `x."a"`, `x.(a)`,
+			`x.len(`, `x.len(,)`, `x.len(1,)`, `x.len)(`, `++`, `x ++ ++`, `++x`, `- -`, `!`, `1 +`, `+ 1`, `* 2`, `1 + * 2`, `1 = 2`, `"a" = 1`, `x = `, `= 1`, `x = y = 1`, `x; `, `; x`, `x;; y`, `x = 1; x`, `;`}).Draw(rt, "raw"))
+	}
 	switch rapid.IntRange(0, 9).Draw(rt, "leafForm") {
 	case 0, 1:
 		return intLit(rapid.SampledFrom([]int64{0, 1, -1, 2, 3, 5, 1000, 999999, 1 << 31, 9223372036854775807, -9223372036854775808, -5}).Draw(rt, "int"))
@@ -451,7 +462,7 @@ func (g *anyGen) stmts(rt *rapid.T, depth int) []*tw.Stmt {
 
 func TestC09_RandomPrograms(t *testing.T) {
 	c := harness.New(t, "C09", "random-programs",
-		"programs from an untyped generator: any expression kind in any position (operators on any operand types, dot/index/call on any receiver, every built-in name with 0..3 arguments of any kind, array/object literals with failing entries), every statement kind in any position (control directives outside loops, @use/@reserve/@insert/@slot/@component in string mode), bounded loops, @each over any value and over literal arrays whose elements are of different kinds with the loop variable used all over the body (one call, index or operator site meeting several kinds in one render); data maps with every kind (boundary integers, empty/non-ASCII/invalid UTF-8 strings, nil pointers at every pointer position, values of unsupported kinds nested at any depth, loop as a key). Oracle: output or error, no panic, error line within the template. Non-trivial: evaluation was reached (parse succeeded) and the program has >= 1 operator/call/index. Distinct by hash of source + data.")
+		"programs from an untyped generator: any expression kind in any position (operators on any operand types, dot/index/call on any receiver, every built-in name with 0..3 arguments of any kind, array/object literals with failing entries; one leaf in 25 is a spelling no printer produces - pairs without a value whose key is a string, number or keyword, repeated and quoted keys, trailing and doubled separators, juxtaposed operands, operators without operands, unfinished ternaries, indexes and calls), every statement kind in any position (control directives outside loops, @use/@reserve/@insert/@slot/@component in string mode), bounded loops, @each over any value and over literal arrays whose elements are of different kinds with the loop variable used all over the body (one call, index or operator site meeting several kinds in one render); data maps with every kind (boundary integers, empty/non-ASCII/invalid UTF-8 strings, nil pointers at every pointer position, values of unsupported kinds nested at any depth, loop as a key). Oracle: output or error, no panic, error line within the template. Non-trivial: evaluation was reached (parse succeeded) and the program has >= 1 operator/call/index. Distinct by hash of source + data.")
 	defer c.Finish()
 	runRapid(t, c, 40000, 450000, func(rt *rapid.T) {
 		nData := rapid.IntRange(0, 5).Draw(rt, "nData")
